@@ -253,34 +253,34 @@ def _is_const(v, c):
     return isinstance(v, Const) and v.v == c
 
 
-def mode_switches(check, repo, tier):
-    """R3: a stuck distance mode makes every later vertex mode dependent."""
+def mode_switches(check, repo, tier, rule="R3", methods=("set_distance_mode", "absolute_mode", "relative_mode", "move_absolute", "rapid_absolute"), floor=40):
+    """R3: a stuck or mis-announced distance mode makes every later vertex mode dependent."""
     from ..commands import CommandRun
     from . import c01
     n = 0
     for cls_name in ("GCodeBuilder", "GCodeCore"):
-        cr = CommandRun(repo, cls_name=cls_name, tier=tier, methods=("absolute_mode", "relative_mode", "move_absolute", "rapid_absolute"),
+        cr = CommandRun(repo, cls_name=cls_name, tier=tier, methods=methods,
                         cm_body=("pass", "raise"), with_invalid=False, transform="identity")
         for r in cr.run(c01.analyse):
             for it in r["items"]:
                 if it[1] != "R4":
                     continue
                 if it[0] == "ok":
-                    check.ok("R3", f"{cls_name}.{it[2]}")
+                    check.ok(rule, f"{cls_name}.{it[2]}")
                     n += 1
                 elif it[0] == "undecided":
-                    check.undecided("R3", f"{cls_name}.{it[2]}")
+                    check.undecided(rule, f"{cls_name}.{it[2]}")
                 else:
-                    check.violation("R3", f"{cls_name}:{it[2]}", f"[{cls_name}] {it[3]}", it[4])
+                    check.violation(rule, f"{cls_name}:{it[2]}", f"[{cls_name}] {it[3]}", it[4])
                     n += 1
-    check.floor(n >= 40, f"C11.R3: only {n} mode-switch obligations decided (floor 40)")
+    check.floor(n >= floor, f"{rule}: only {n} mode-switch obligations decided (floor {floor})")
     return n
 
 
 def run(check, repo, tier):
     check.rule("R1", "every shape hands the same curve / length / keyword arguments to parametric (or rejects identically) in both distance modes, for the same absolute waypoints")
     check.rule("R2", "samples and polyline points reach the same machine positions in both modes (real move + RS274 machine model)")
-    check.rule("R3", "the distance-mode switches a path relies on are undone on every exit: absolute_mode / relative_mode run their body in the requested mode "
+    check.rule("R3", "set_distance_mode announces the mode it records (for every spelling it accepts), and the distance-mode switches a path relies on are undone on every exit: absolute_mode / relative_mode run their body in the requested mode "
                      "and restore the previous one on return and on exception; move_absolute / rapid_absolute leave the mode as it was, also when rejected (rule R4 of C01)")
     P = Program(repo)
     L = Lab(P)
